@@ -5,6 +5,7 @@ import Driver.Gen
 import Driver.Parse
 import Driver.Proc
 import Driver.Fill
+import Driver.Limiter
 
 /-!
 Line-protocol driver: one case per input line, `tag \t fields… \t observed`, one answer per line,
@@ -27,6 +28,10 @@ def dispatch (line : String) : String :=
   | "ptcpflags" :: rest => (handlePTCPFlags rest).getD "BAD-CASE\t0"
   | "pportsfile" :: rest => (handlePPortsFile rest).getD "BAD-CASE\t0"
   | "pexclfile" :: rest => (handlePExclFile rest).getD "BAD-CASE\t0"
+  | "lim" :: rest => (handleLim rest).getD "BAD-CASE\t0"
+  | "limconc" :: rest => (handleLimConc rest).getD "BAD-CASE\t0"
+  | "limwrap" :: rest => (handleLimWrap rest).getD "BAD-CASE\t0"
+  | "limrt" :: rest => (handleLimRT rest).getD "BAD-CASE\t0"
   | _ => "BAD-TAG\t0"
 
 partial def loop (h : IO.FS.Stream) (out : IO.FS.Stream) : IO Unit := do
